@@ -104,12 +104,17 @@ Record run := {
   r_final : option edit           (* the complete script with all own costs; None: completion or serialisation raised *)
 }.
 
+(* the other views of the total on fresh trees of the same pair under one setting of DEFAULT_PRINTER.quiet (the views of
+   C03): the sum over TreeNode.get_all_edits and TreeNode.diff(...).edited_cost() *)
+Record view := { v_quiet : bool; v_flat_total : Z; v_edited_cost : Z }.
+
 Record case := {
   c_a : tree; c_b : tree;
   c_hist : history;
   c_canon : option edit;          (* canonical drive: no history, quiet printer; None: it raised *)
   c_timeout : bool;               (* the wall-clock guard fired *)
-  c_runs : list run
+  c_runs : list run;
+  c_views : list view
 }.
 
 (* no call raised, every call was answered (the histories of a case only address sub-edits that were listed in its
@@ -119,14 +124,27 @@ Definition run_ok (h : history) (canon : edit) (r : run) : bool :=
   negb (existsb is_err (r_outs r)) && negb (existsb is_nosub (r_outs r)) &&
   Nat.eqb (length (r_outs r)) (length h) &&
   match r_final r with
-  | Some e => (cost e =? cost canon) && script_eqb e canon
+  | Some e => (cost e =? cost canon) && script_eqb e canon &&
+              (cost e =? zsum (flat_costs e))           (* the reported total is the sum of the leaves of the script *)
   | None => false
   end.
+
+(* the final costs of the runs of one history under quiet and under non-quiet printers are the same number *)
+Definition quiet_agree (rs : list run) : bool :=
+  forallb (fun r1 => forallb (fun r2 =>
+     match r_final r1, r_final r2 with
+     | Some e1, Some e2 => cost e1 =? cost e2
+     | _, _ => false
+     end) rs) rs.
+
+Definition view_ok (canon : edit) (w : view) : bool :=
+  (v_flat_total w =? cost canon) && (v_edited_cost w =? cost canon).
 
 Definition holds_C05 (c : case) : bool :=
   negb (c_timeout c) &&
   match c_canon c with
-  | Some canon => forallb (run_ok (c_hist c) canon) (c_runs c)
+  | Some canon => forallb (run_ok (c_hist c) canon) (c_runs c) && quiet_agree (c_runs c) &&
+                  (cost canon =? zsum (flat_costs canon)) && forallb (view_ok canon) (c_views c)
   | None => false
   end.
 
@@ -137,6 +155,7 @@ Record pcase := {
   pc_scripts : list edit;
   pc_canon : option nat;
   pc_timeout : bool;
+  pc_views : list view;
   pc_items : list (history * list prun)
 }.
 Definition lookup_script (tbl : list edit) (o : option nat) : option edit :=
@@ -146,7 +165,8 @@ Definition expand (pc : pcase) : list case :=
                     c_canon := lookup_script (pc_scripts pc) (pc_canon pc);
                     c_timeout := pc_timeout pc;
                     c_runs := map (fun r => {| r_quiet := pr_quiet r; r_outs := pr_outs r;
-                                               r_final := lookup_script (pc_scripts pc) (pr_final r) |}) (snd it) |})
+                                               r_final := lookup_script (pc_scripts pc) (pr_final r) |}) (snd it);
+                    c_views := pc_views pc |})
       (pc_items pc).
 (* positions (within the case) of the histories on which the property fails *)
 Definition bad_items (f : case -> bool) (pc : pcase) : list nat :=
